@@ -30,6 +30,9 @@ CLAIMS = {
  "C16": ("Generated configurations and client negotiation scripts driven through the real SOCKS5 handler over loopback sockets; a safety oracle derived from the documented meaning of the configuration (enabled commands, usable credential pairs) decides whether an outbound connection, a success reply or a listener may appear at all.",
          "things-go/go-socks5 is the library under the handler; the loopback target listener and /proc/self/net/udp are the observers; timing only bounds how long replies are awaited (never a verdict).",
          "property-based testing (rapid) with a reference predicate over (configuration, session)"),
+ "C17": ("Generated rate/burst/latency configurations and concurrent client behaviours through the real throttle handler; every underlying read is time-stamped and an invariant over that history (cumulative bytes <= burst + rate x elapsed, per connection and in total; latency respected; stream intact) is checked. Real time, one-sided assertions.",
+         "golang.org/x/time/rate is the limiter under the handler; the wall clock is only used in the direction in which load cannot cause a false alarm.",
+         "property-based testing (rapid); invariant over a time-stamped read history"),
 }
 NOT_YET = "check not built yet in this session (planned, see DESIGN.md); not claimed until it is"
 
